@@ -8,3 +8,20 @@ func VerifRaceMAC() {
 	vQuiesce(10)
 	vCover("end")
 }
+
+// VerifRaceTBF: a running token bucket filter is reconfigured (rate, burst) by one goroutine
+// while another hands it a datagram.
+func VerifRaceTBF() {
+	sink := &verifStampNIC{}
+	vAdvance(1000000000)
+	tbf, _ := NewTokenBucketFilter(sink)
+	vGo("traffic", func() {
+		vAdvance(200000000)
+		tbf.onInboundChunk(verifUDPChunk(nil, 1000, nil, 2000, make([]byte, 10)))
+	})
+	vGo("reconfigure", func() {
+		tbf.Set(TBFRate(2*MBit), TBFMaxBurst(4*KBit))
+	})
+	vQuiesce(40)
+	vCover("end")
+}
